@@ -97,8 +97,13 @@ def contiguous_selector_lengths(sel):
         return []
 
 
-def kernel_basis(mat, tol=1e-6):
+def kernel_basis(mat, tol=None):
     u, s, vh = np.linalg.svd(mat)
+    if tol is None:
+        # relative to the largest singular value (the convention of numpy.linalg.matrix_rank, with a
+        # safety factor): an absolute threshold declares genuinely nonzero singular values of a
+        # matrix with small entries to be zero, and the "kernel" is then larger than the kernel.
+        tol = 10 * max(mat.shape) * np.finfo(float).eps * s.max(initial=0.0)
     rank = np.count_nonzero(s > tol)
     basis = vh[rank:, :].T
     return basis
